@@ -134,7 +134,18 @@ func (a *Application) getProviderEndpoints(ctx context.Context, providerType str
 	providerProfile := a.createProviderProfile(providerType)
 	providerProfile.Path = pr.targetPath
 
-	providerEndpoints := a.filterEndpointsByProfile(endpoints, providerProfile, pr.requestLogger)
+	// The provider constraint is hard: filterEndpointsByProfile falls back to every endpoint when
+	// none is compatible, which would send e.g. /olla/vllm/ traffic to an Ollama backend.
+	// Select the provider's endpoints here and answer "no endpoints" when there are none.
+	providerEndpoints := make([]*domain.Endpoint, 0, len(endpoints))
+	for _, endpoint := range endpoints {
+		if providerProfile.IsCompatibleWith(NormaliseProviderType(endpoint.Type)) {
+			providerEndpoints = append(providerEndpoints, endpoint)
+		}
+	}
+	if len(providerEndpoints) == 0 {
+		return providerEndpoints, nil
+	}
 
 	// If the request has specific requirements (e.g., needs vision support),
 	// apply those filters on top of the provider constraint
